@@ -1024,6 +1024,8 @@ def run(ctx):
     ctx.log(f"cases {len(cases)}, compared in Coq {len(records)}, mismatches {len(mism)}, broken files {len(broken)}, "
             f"direct-oracle failures {len(direct_fail)}")
     hardening(ctx)
+    early = [(r_[0], r_[1]) for r_ in records[:40] if r_[1][0] == "ok" and r_[0]["seed"] is not None][:8]
+    large_stream(ctx, early)
     if (mism or broken) and not direct_fail:
         # search: the mismatching cases are valid-input cases whose direct oracles passed, or refusal cases whose
         # error class / acceptance differs from the model
@@ -1041,6 +1043,199 @@ def run(ctx):
             ctx.violation("correspondence", "model and implementation of blend disagree "
                           f"({len(mism)} cases; first: tag={mism[0][0]['tag'] if mism else '-'}, "
                           f"weights={mism[0][0]['wtag'] if mism else '-'})", data, found_input=False)
+
+
+# ------------------------------------------------------------------------------------------------
+# LARGE stream (family Q of notes/HARDENING.md): big inputs judged by Python-side oracles only (no Coq literals: the
+# theorems are size-independent, the correspondence samples small cases).  Replays record generator parameters.
+def big_cells(n_slices=2, n_periods=24, n_evals=13, fields=("paid_loss",), samples=0, vseed=0, holes=(), start_year=1990,
+              res=12, ev_step=3, slice_sizes=None, big_ints=False):
+    """a ragged-free rectangle of CumulativeCells: slice k has country 'S%03d' % k; value of (slice, period, eval, field) is a
+    deterministic small dyadic (or an integer beyond 2**53).  holes: (slice, period, eval) index triples left out.
+    slice_sizes: optional number of cells kept per slice (prefix in period/eval order)."""
+    from bermuda import CumulativeCell, Metadata
+    from harness.gen import add_m, month_end
+
+    rng = np.random.RandomState(vseed)
+    cells = []
+    holes = set(holes)
+    for k in range(n_slices):
+        m = Metadata(country="S%03d" % k)
+        kept = 0
+        for p in range(n_periods):
+            y, mo = add_m(start_year, 1, p * res)
+            ps = D(y, mo, 1)
+            pe = month_end(*add_m(y, mo, res - 1))
+            for e in range(n_evals):
+                if (k, p, e) in holes:
+                    continue
+                if slice_sizes is not None and kept >= slice_sizes[k]:
+                    continue
+                ev_ = month_end(*add_m(y, mo, res - 1 + e * ev_step))
+                vals = {}
+                for f in fields:
+                    if samples:
+                        vals[f] = rng.randint(0, 40000, size=samples) / 8.0
+                    elif big_ints:
+                        vals[f] = int(2**53 + 1 + 2 * rng.randint(0, 1000))
+                    else:
+                        vals[f] = float(rng.randint(0, 40000)) / 8.0
+                cells.append(CumulativeCell(period_start=ps, period_end=pe, evaluation_date=ev_, metadata=m, values=vals))
+                kept += 1
+    return cells
+
+
+def big_triangle(**kw):
+    from bermuda import Triangle
+
+    with warnings.catch_warnings():
+        warnings.simplefilter("ignore")
+        return Triangle(big_cells(**kw))
+
+
+def coord_key(c):
+    return (c.metadata.country, c.period_start, c.period_end, c.evaluation_date)
+
+
+def large_case(name, tier_quick=True):
+    """-> dict(tris, weights, method, seed, expect) built from parameters only (so that a replay can rebuild it)"""
+    scale = 1 if tier_quick else 2
+    if name == "linear-2100-cells":
+        # two slices of 1024 cells (a slice boundary at a multiple of 256) + a third of 76: 2124 cells, per-cell dict weights
+        kw = dict(n_slices=3, n_periods=32 * scale, n_evals=32, slice_sizes=[1024 * scale, 1024 * scale, 76])
+        a, b = big_triangle(vseed=1, **kw), big_triangle(vseed=2, **kw)
+        n = len(a)
+        w0 = ((np.arange(n) * 7) % 17) / 16.0
+        return dict(tris=[a, b], weights={"first": w0, "second": 1.0 - w0}, method="linear", seed=None, expect="linear")
+    if name == "linear-5000-samples":
+        kw = dict(n_slices=1, n_periods=3, n_evals=2, samples=5000 if tier_quick else 100000)
+        a, b = big_triangle(vseed=3, **kw), big_triangle(vseed=4, **kw)
+        # the second triangle holds reversed / Fortran-ordered views of its sample arrays
+        with warnings.catch_warnings():
+            warnings.simplefilter("ignore")
+            from bermuda import Triangle
+
+            b = Triangle([c.replace(values={f: np.asfortranarray(v[::-1])[::-1] for f, v in c.values.items()}) for c in b.cells])
+        return dict(tris=[a, b], weights=[0.25, 0.75], method="linear", seed=None, expect="linear")
+    if name == "linear-big-ints":
+        kw = dict(n_slices=2, n_periods=10, n_evals=15, big_ints=True)
+        a = big_triangle(vseed=5, **kw)
+        return dict(tris=[a, a], weights=[0.5, 0.5], method="linear", seed=None, expect="linear")
+    if name == "mixture-630-cells-per-cell-weights":
+        # more than 256 distinct (seed, sample count, weights) combinations in one call; every weight vector has a zero entry
+        kw = dict(n_slices=2, n_periods=21 * scale, n_evals=15, samples=6)
+        tris = [big_triangle(vseed=10 + j, **kw) for j in range(3)]
+        n = len(tris[0])
+        i = np.arange(n)
+        a = (1 + (i * 37) % 1021) / 1024.0
+        cols = np.zeros((3, n))
+        for j in range(3):
+            z = (i % 3 == j)                       # component j has weight 0 for the cells with i % 3 == j
+            cols[(j + 1) % 3, z] = a[z]
+            cols[(j + 2) % 3, z] = 1.0 - a[z]
+        return dict(tris=tris, weights={"t0": cols[0], "t1": cols[1], "t2": cols[2]}, method="mixture", seed=11,
+                    expect="mixture-zero-weight")
+    if name == "holes-600-cells-refused":
+        # >= 512 cells; both triangles have the same slices, periods, evaluation dates and length but a hole at another place
+        kw = dict(n_slices=2, n_periods=24 * scale, n_evals=13)
+        a = big_triangle(vseed=20, holes=[(0, 3, 4)], **kw)
+        b = big_triangle(vseed=21, holes=[(0, 7, 2)], **kw)
+        return dict(tris=[a, b], weights=[0.5, 0.5], method="linear", seed=None, expect="refused")
+    if name == "row-of-70-evaluations":
+        kw = dict(n_slices=1, n_periods=5, n_evals=70, ev_step=1)
+        a, b = big_triangle(vseed=30, **kw), big_triangle(vseed=31, **kw)
+        return dict(tris=[a, b], weights=None, method="linear", seed=None, expect="linear")
+    raise KeyError(name)
+
+
+LARGE_QUICK = ["linear-2100-cells", "linear-5000-samples", "linear-big-ints", "mixture-630-cells-per-cell-weights",
+               "holes-600-cells-refused", "row-of-70-evaluations"]
+
+
+def large_oracle(lc, res):
+    """vectorised Python-side oracle for a large case -> list of failure strings"""
+    tris, w, method = lc["tris"], lc["weights"], lc["method"]
+    if lc["expect"] == "refused":
+        if res[0] == "ok":
+            return [f"triangles with different coordinate sets ({len(tris[0])} cells each, a hole at different places) were blended "
+                    "instead of refused"]
+        return [] if isinstance(res[1], ValueError) else [f"refusal raised {type(res[1]).__name__} instead of ValueError"]
+    if res[0] != "ok":
+        return [f"valid large input refused: {type(res[1]).__name__}: {res[1]}"]
+    out, t0 = res[1], tris[0]
+    n, M = len(t0), len(tris)
+    if len(out) != n:
+        return [f"result has {len(out)} cells, inputs have {n}"]
+    idx = [{coord_key(c): c for c in t.cells} for t in tris]
+    if isinstance(w, dict):
+        rows = [np.atleast_1d(np.asarray(v, dtype=float)) for v in w.values()]
+        W = np.stack([r_ if len(r_) == n else np.repeat(r_, n) for r_ in rows])          # M x n
+    elif w is None:
+        W = np.full((M, n), 1.0 / M)
+    else:
+        W = np.repeat(np.asarray(w, dtype=float)[:, None], n, axis=1)
+    for i, (o, c0) in enumerate(zip(out.cells, t0.cells)):
+        k = coord_key(c0)
+        if coord_key(o) != k or type(o) is not type(c0) or set(o.values) != set(c0.values):
+            return [f"cell {i}: coordinates / type / fields differ from the first triangle's cell {k}"]
+        for f in c0.values:
+            vs = [np.atleast_1d(np.asarray(ix[k].values[f])) for ix in idx]
+            got = np.atleast_1d(np.asarray(o.values[f], dtype=float))
+            if lc["expect"] == "linear":
+                if any(v.dtype.kind in "iu" and np.abs(v).max() > 2**53 for v in vs):
+                    want = [float(sum(Fraction(float(W[j, i])) * int(vs[j][0]) for j in range(M)))]
+                    ok = len(got) == 1 and got[0] == want[0]
+                else:
+                    want = sum(W[j, i] * vs[j].astype(float) for j in range(M))
+                    ok = got.shape == np.shape(want) and np.allclose(got, want, rtol=1e-12, atol=0)
+                if not ok:
+                    return [f"cell {i} {k} field {f}: {got[:3].tolist()} is not the weighted sum {np.asarray(want)[:3].tolist()} "
+                            f"(weights {W[:, i].tolist()})"]
+            else:
+                # mixture: every sample is the same-index sample of an input whose weight in THIS cell is positive
+                allowed = [j for j in range(M) if W[j, i] > 0]
+                okmask = np.zeros(len(got), dtype=bool)
+                for j in allowed:
+                    okmask |= (got == vs[j].astype(float))
+                if got.shape != vs[0].shape or not okmask.all():
+                    bad = int(np.argmin(okmask))
+                    return [f"cell {i} {k} field {f} sample {bad}: {got[bad]!r} is not the sample of any input with positive weight "
+                            f"(weights {W[:, i].tolist()}, inputs {[float(v[bad]) for v in vs]})"]
+    return []
+
+
+def large_run(lc):
+    res, _ = run_impl(lc["tris"], lc["weights"], lc["method"], lc["seed"])
+    fails = large_oracle(lc, res)
+    if not fails and res[0] == "ok" and lc["method"] == "mixture":
+        # the same seeded call again: identical, and still inside the zero-weight constraint
+        res2, _ = run_impl(lc["tris"], lc["weights"], lc["method"], lc["seed"])
+        fails = large_oracle(lc, res2)
+        if not fails and canon_out(res2[1]) != canon_out(res[1]):
+            fails = ["two runs of the same seeded call differ"]
+    return fails
+
+
+def large_stream(ctx, early):
+    """run the large cases, then re-check the early small cases (process-wide state: caches, pools)"""
+    names = LARGE_QUICK
+    for name in names:
+        lc = large_case(name, ctx.quick)
+        fails = large_run(lc)
+        ctx.count(evaluations=1)
+        ctx.hist(f"large:{name}", sum(len(t) for t in lc["tris"]))
+        ctx.nontriv(("large", name))
+        if fails:
+            ctx.violation("impl-violation", f"blend (large case {name}): " + fails[0],
+                          {"large": name, "quick": ctx.quick, "case": None, "failures": fails}, found_input=True)
+    for case, res0 in early:
+        res1, _ = run_impl(case["tris"], case["weights"], case["method"], case["seed"])
+        if (res0[0], res1[0]) != ("ok", "ok") and res0[0] != res1[0] or \
+                (res0[0] == "ok" and res1[0] == "ok" and canon_out(res0[1]) != canon_out(res1[1])):
+            ctx.violation("impl-violation", "blend: an early small case gives a different result when repeated after the large work "
+                          "(state kept between calls)", {"case": case_json(case), "recheck": True, "quick": ctx.quick}, found_input=True)
+    ctx.notes.append("large stream: %d big cases judged by Python-side oracles only (no Coq literals; the theorems are "
+                     "size-independent, the correspondence samples small cases)" % len(names))
 
 
 NUMPY_FLOAT_MIX = {"kind": "blend_mixture_numpy_float_vs_float_refused"}
@@ -1144,6 +1339,24 @@ def refusal_expected(case):
 
 
 def replay(ctx, data):
+    if data.get("recheck"):
+        # a small case, the large work, the small case again: the two results must agree
+        case = case_from_json(data["case"])
+        r0, _ = run_impl(case["tris"], case["weights"], case["method"], case["seed"])
+        for name in LARGE_QUICK:
+            lc = large_case(name, data.get("quick", True))
+            run_impl(lc["tris"], lc["weights"], lc["method"], lc["seed"])
+        r1, _ = run_impl(case["tris"], case["weights"], case["method"], case["seed"])
+        same = r0[0] == r1[0] and (r0[0] != "ok" or canon_out(r0[1]) == canon_out(r1[1]))
+        print("small case before / after the large work:", "identical" if same else "DIFFERENT")
+        return 0 if same else 1
+    if data.get("large"):
+        lc = large_case(data["large"], data.get("quick", True))
+        fails = large_run(lc)
+        print("large case", data["large"])
+        for f in fails[:5]:
+            print("  FAIL:", f)
+        return 1 if fails else 0
     if data.get("probe"):
         return replay_probe(data)
     case = case_from_json(data["case"])
